@@ -137,7 +137,11 @@ func (p *Peer) clientECDHE() []byte {
 	if err != nil {
 		return body
 	}
-	own, err := p.Enc.Key.(*sm2.PrivateKey).ECDH()
+	ownKey, ok := p.Enc.Key.(*sm2.PrivateKey)
+	if !ok {
+		return body
+	}
+	own, err := ownKey.ECDH()
 	if err != nil {
 		return body
 	}
